@@ -140,6 +140,16 @@ func (e *ledgerEngine) step(ws []string) string {
 			return "-"
 		}
 		return showVal(true, c)
+	case "codehash": // the code hash the ledger reports for the account ("-": none / all zero)
+		h := l.GetCodeHash(lAddr(ws[1]))
+		if h == nil {
+			return "-"
+		}
+		hx := fmt.Sprintf("%x", h.Bytes())
+		if strings.Trim(hx, "0") == "" {
+			return "-"
+		}
+		return hx
 	case "setcode": // setcode a <code> <keccak hex expected by the generator's table>
 		code := tok(ws[2])
 		l.SetCode(lAddr(ws[1]), code)
